@@ -27,9 +27,10 @@ class Undetermined(Exception):
 
 
 class Eval:
-    def __init__(self, P, b, scenario):
+    def __init__(self, P, b, scenario, fork_unknown=False):
         self.P = P
         self.b = b
+        self.fork_unknown = fork_unknown      # a branch on a value that is not followed is taken both ways (the caller judges every outcome)
         self.abs = {1: scenario[0], 2: scenario[1]}        # is_absolute of self / other
 
     # ------------------------------------------------------------------ values
@@ -247,6 +248,11 @@ class Eval:
                             if tg not in path or tg in stop:
                                 stack.append((tg, path + (tg,), a2, env, False))
                 if v is None:
+                    if self.fork_unknown:
+                        for val, tg in outs:
+                            if tg not in path or tg in stop:
+                                stack.append((tg, path + (tg,), asm, env, False))
+                        continue
                     raise Undetermined(f'a branch at line {t.get("l")} depends on a value that is not followed')
                 if v[0] == 'const':
                     for val, tg in outs:
@@ -396,3 +402,36 @@ def _verdict_iteration(kind, asm, out, sc):
         return [] if (not cont and rv == ('const', 0)) else [f'[{sc}] {case}, different segments: the result is not false']
     want = int(not a and not b2)
     return [] if (not cont and rv == ('const', want)) else [f'[{sc}] {case}: the result is {"the next iteration" if cont else rv}, expected {bool(want)}']
+
+
+def kind_gate(P, name):
+    """PathImpl::suffix (and the like): the loop over the two sequences is entered exactly when the two paths are of the same kind, and a
+    pair of different kinds gives None — whatever else is tested on the way.  Returns problems."""
+    b = P.body(name)
+    if b is None:
+        return [f'{name} not found']
+    loops = loop_info(b)
+    if len(loops) != 1:
+        return [f'{len(loops)} loops (1 expected)']
+    header = next(iter(loops))
+    problems = []
+    for ks in (True, False):
+        for ko in (True, False):
+            sc = f'value {"absolute" if ks else "relative"}, prefix {"absolute" if ko else "relative"}'
+            ev = Eval(P, b, (ks, ko), fork_unknown=True)
+            try:
+                reached = returned = 0
+                for asm, out in ev.paths(0, {1: ('argv', 1), 2: ('argv', 2)}, stop=(header,)):
+                    if out[0] == 'stop':
+                        reached += 1
+                        if ks != ko:
+                            problems.append(f'[{sc}] the segments are compared although the kinds differ: a suffix could be returned for paths of different kinds')
+                    else:
+                        returned += 1
+                        if ks == ko:
+                            problems.append(f'[{sc}] the function returns before comparing the segments although the kinds agree')
+                if ks == ko and reached == 0:
+                    problems.append(f'[{sc}] the comparison of the segments is never reached')
+            except Undetermined as e:
+                problems.append(f'[{sc}] undetermined: {e}')
+    return sorted(set(problems))
